@@ -14,6 +14,7 @@ TECHNIQUE = 'runtime monitor: post-condition contract on parse_sql + exception c
 RULE = ('cases = corpus + templates (all statement kinds) x 3 dialects, single/double token mutations, truncations, '
         'garbage splices, token soups, unicode noise, nesting up to depth 40; non-trivial = input reached a grammar '
         'action or the error reporter; distinct by (dialect, token-type sequence)')
+RULE += '; also: lexer-level mutations (glued tokens, re-layout, comments, number edges, long error tails, comment sandwiches), grammar-derived sentences, case variants'
 ASSUMPTIONS = ['"reasonably sized" = at most 400 tokens and nesting depth <= 40',
                'terminates = stays under a logical budget of 2e5 + 5e3*len(tokens) Python calls inside the library']
 BUDGET = {'quick': (16, 240), 'thorough': (16, 1800)}
